@@ -22,6 +22,9 @@ abbreviated code) are written independently of pharmpy.
                           record everything but the edited value is preserved, and inside an edited code
                           record every other line (statement, comment, verbatim, blank) is preserved exactly
                           and in order; the generated code is stable under update_source and re-reading.
+                          (c) the same clauses on $THETA records that mix a repeat `(...)xn` with further thetas
+                          (every order, one or two records): identity, and single edits of the thetas written
+                          without a repeat and of other components.
 """
 
 import itertools
@@ -790,9 +793,28 @@ def gen_code_records(tier):
             yield kind, name + ' ' + '\n'.join(seq) + '\n'
 
 
+def gen_theta_repeat_records(tier):
+    """$THETA records mixing a repeat `(...)xn` with further thetas: every order of one repeat and one or two
+    single thetas (or a second repeat) x spellings of the repeat x separators (appended after the other generators:
+    the texts of the generators above keep their enumeration order)"""
+    k = 0
+    for rep in (THETA_REPEATS_QUICK if tier == 'quick' else THETA_REPEATS):
+        for tpl in theta_repeat_templates():
+            if len(tpl) > 1:
+                continue
+            singles = iter(THETA_SINGLES)
+            items = [next(singles) if it == 'S' else rep if it == 'R' else THETA_REPEAT2 for it in tpl[0]]
+            for si in range(len(THETA_SEPS)):
+                k += 1
+                name = ('$THETA', '$THE', '$theta', '$THET')[k % 4]
+                lead = (' ', '\n', '  ; c\n')[k % 3]
+                tail = THETA_TAILS[k % len(THETA_TAILS)]
+                yield 'THETA', name + lead + _join_cycle(items, THETA_SEPS, si) + tail
+
+
 RECORD_GENERATORS = (
     gen_option_records, gen_theta_records, gen_omega_records, gen_data_records, gen_problem_records,
-    gen_abbr_records, gen_sim_records, gen_unknown_records, gen_code_records,
+    gen_abbr_records, gen_sim_records, gen_unknown_records, gen_code_records, gen_theta_repeat_records,
 )
 
 
@@ -921,7 +943,8 @@ def bounded_roundtrip(tier):
         'rejected': {tag: {'count': n, 'smallest': ex} for tag, (n, _, ex) in sorted(rejected.items())},
         'bound': f'2 base models x all subsets of <= {maxflags} of {len(LAYOUT_FLAGS)} layout variants '
         f'({len(stream_cases)} control streams) + {len(record_cases)} single record texts: every sequence of <= '
-        f'{maxflags} options/values/code lines over the per-record alphabets x separators x tails; '
+        f'{maxflags} options/values/code lines over the per-record alphabets x separators x tails, and $THETA records with '
+        f'every order of a repeat (...)xn and 1-2 further thetas or a second repeat x {len(THETA_SEPS)} separators; '
         f'{nrejected} texts with exotic features are rejected by the parser (outside the precondition)',
         'samples': [repr(model_text('advan', ('crlf', 'abbrev'))[0][:120]), repr(record_cases[len(record_cases) // 2]),
                     repr(record_cases[-1])],
@@ -1381,7 +1404,7 @@ def check_identity(text, tag=None):
 # $THETA records in which a repeated theta `(...)xn` (n parameters written once) stands next to further
 # thetas.  The reference knows how many parameters every item it writes stands for (NM-TRAN: `(value)xn`
 # is n thetas with that value), so it knows which item holds the k-th parameter.
-THETA_REPEATS = ('(0.75)x2', '(0,0.5) x2', '(0.25,1.5,4)x3', '(0,0.5)x2', '(0.25,1.5,4)x2', '(1.5 FIX)x2', '(0.75)X2')
+THETA_REPEATS = ('(0.75)x2', '(0,0.5) x2', '(0.25,1.5,4)x3', '(0,0.5)x2', '(0.25,1.5,4)x2', '(1.5 FIX)x2', '(0.25,1.5,4) x2')
 THETA_REPEATS_QUICK = THETA_REPEATS[:4]
 THETA_REPEAT2 = '(2.25)x2'  # a second repeat of the same record
 THETA_SINGLES = ('(0,1.25)', '(0.5,2.5,7)', '3.5')
